@@ -571,7 +571,7 @@ def run(chk):
     if traces:
         chk.sample({'program': glist[len(glist) // 2][0], 'desc_after_last_op': traces[len(glist) // 2][-1]['desc']})
     # code -> spec: random programs beyond the catalogue
-    n = 300 if quick else 3000
+    n = 400 if quick else 4000
     seeds = [chk.seed * 1000003 + i for i in range(n)]
     rtraces = pool_map(_random_trace, seeds)
     phase('random')
@@ -591,7 +591,15 @@ def _debug_keys(trace):
     defs, insts, keys = {}, {}, []
 
     def ckey(c):
-        return (defs[c][1], tuple(ckey(b) for b in defs[c][0]))
+        order = []
+
+        def visit(k):
+            if k not in order:
+                order.append(k)
+                for b in defs[k][0]:
+                    visit(b)
+        visit(c)
+        return tuple((defs[k][1], tuple(order.index(b) for b in defs[k][0])) for k in order)
     for ev in trace:
         if ev['ev'] == 'reset':
             defs, insts = {}, {}
@@ -628,7 +636,8 @@ def replay(chk, rep):
     for j in range(l - 1):
         if keys[j] == keys[l - 1] and trace[j]['desc'].get(trace[j]['x']) != trace[l - 1]['desc'].get(trace[l - 1]['x']):
             print('event', j + 1, 'and event', l, 'create objects with equal key but different descriptions:')
-            _diff(json.loads(texts[trace[j]['desc'][trace[j]['x']]]), json.loads(texts[trace[l - 1]['desc'][trace[l - 1]['x']]]))
+            da, db = trace[j]['desc'][trace[j]['x']], trace[l - 1]['desc'][trace[l - 1]['x']]
+            _diff(json.loads(texts.get(da, '"%s"' % da)), json.loads(texts.get(db, '"%s"' % db)))
             break
     for i, ev in enumerate(trace, 1):
         print(i, {k: v for k, v in ev.items() if k not in ('desc',)}, ev['desc'])
